@@ -62,19 +62,40 @@ func typesOf(rs []Reply) string {
 	return strings.Join(ts, ",")
 }
 
-// compress turns ok,ok,ok,done into ok+,done.
+// compress turns a reply sequence into an outcome class that does not depend
+// on record order or timestamps: ok,ok,ok,done -> ok+,done; a run mixing ok and
+// warning -> (ok|warning)+; upd and new are one class.
 func compress(rs []Reply) string {
+	class := func(t string) string {
+		switch t {
+		case "ok", "warning":
+			return "rec"
+		case "upd", "new":
+			return "upd/new"
+		}
+		return t
+	}
 	var out []string
 	for i := 0; i < len(rs); {
 		j := i
-		for j < len(rs) && rs[j].Type == rs[i].Type {
+		kinds := map[string]bool{}
+		for j < len(rs) && class(rs[j].Type) == class(rs[i].Type) {
+			kinds[rs[j].Type] = true
 			j++
 		}
-		if j-i > 1 {
-			out = append(out, rs[i].Type+"+")
-		} else {
-			out = append(out, rs[i].Type)
+		name := class(rs[i].Type)
+		if name == "rec" {
+			if len(kinds) == 2 {
+				out = append(out, "(ok|warning)+")
+				i = j
+				continue
+			}
+			name = rs[i].Type
 		}
+		if j-i > 1 {
+			name += "+"
+		}
+		out = append(out, name)
 		i = j
 	}
 	if len(out) == 0 {
@@ -188,11 +209,7 @@ func judge(res *Result) *judged {
 			}
 			cl := "malformed:" + compress(rs)
 			if len(rs) == 1 {
-				if rs[0].OpID == "" && (!rq.HasOpID || rq.OpID != "") {
-					cl += "/empty-opid"
-				} else {
-					cl += "/own-opid"
-				}
+				cl += malformedClass(rq, rs[0])
 			}
 			jd.outcomes = append(jd.outcomes, cl)
 			continue
@@ -405,7 +422,13 @@ func judge(res *Result) *judged {
 				subs[rq.OpID] = s
 				subOrder = append(subOrder, s)
 			}
-			jd.outcomes = append(jd.outcomes, label+":"+compress(rs))
+			// notifications are reported with the cancel that ends the stream (their arrival step is timing)
+			head := rs[:len(rs)-len(rest)]
+			if failed || len(head) > 0 {
+				jd.outcomes = append(jd.outcomes, label+":"+compress(head))
+			} else {
+				jd.outcomes = append(jd.outcomes, label+":open")
+			}
 
 		case kCancel:
 			s := subs[rq.OpID]
@@ -486,7 +509,9 @@ func checkQueryPart(jd *judged, k int, st StepRec, kind string, rs []Reply, whol
 }
 
 // checkNotifications matches the notifications a subscription produced with
-// the writes that happened while it was open.
+// the writes that happened while it was open: there must be an order-preserving
+// assignment of notifications to writes that covers every write that must be
+// notified and uses no write that must not be.
 func checkNotifications(jd *judged, res *Result, s *subState) {
 	add := func(disc, format string, a ...any) {
 		jd.viols = append(jd.viols, V{"sub-notifications", s.kind, disc, fmt.Sprintf(format, a...)})
@@ -495,35 +520,81 @@ func checkNotifications(jd *judged, res *Result, s *subState) {
 		return
 	}
 	stream := s.streamed
-	pos := 0
-	for _, e := range s.expect {
-		matches := false
-		if pos < len(stream) {
-			r := stream[pos]
-			if r.Type == "warning" {
-				matches = !e.del
-			} else {
-				key, _ := r.keyAndData()
-				if key == e.key {
-					if e.del {
-						matches = r.Type == "del"
-					} else {
-						matches = in(r.Type, "upd", "new")
-					}
+	compatible := func(r Reply, e notifExp) bool {
+		if r.Type == "warning" {
+			return !e.del
+		}
+		key, _ := r.keyAndData()
+		if key != e.key {
+			return false
+		}
+		if e.del {
+			return r.Type == "del"
+		}
+		return in(r.Type, "upd", "new")
+	}
+	n, m := len(stream), len(s.expect)
+	// f[i][j]: stream[i:] can be assigned to expect[j:]
+	f := make([][]bool, n+1)
+	for i := range f {
+		f[i] = make([]bool, m+1)
+	}
+	for i := n; i >= 0; i-- {
+		for j := m; j >= 0; j-- {
+			switch {
+			case j == m:
+				f[i][j] = i == n
+			default:
+				e := s.expect[j]
+				if e.level != 2 && f[i][j+1] {
+					f[i][j] = true
+				}
+				if i < n && e.level > 0 && compatible(stream[i], e) && f[i+1][j+1] {
+					f[i][j] = true
 				}
 			}
 		}
-		switch {
-		case matches && e.level > 0:
-			pos++
-		case matches && e.level == 0:
-			add("notification-for-non-matching-change", "subscription %s (%s) was notified of the write to %s at step %d (%s)", s.opID, q(res.Steps[s.step].Msg), e.key, e.step, q(res.Steps[e.step].Msg))
-			pos++
-		case !matches && e.level == 2:
-			add("missing-notification", "subscription %s (%s) got %s but nothing for the write at step %d (%s)", s.opID, q(res.Steps[s.step].Msg), typesOf(stream), e.step, q(res.Steps[e.step].Msg))
+	}
+	if f[0][0] {
+		return
+	}
+	must, may, forbiddenHit := 0, 0, false
+	var writes []string
+	for _, e := range s.expect {
+		switch e.level {
+		case 2:
+			must++
+			may++
+		case 1:
+			may++
+		case 0:
+			for _, r := range stream {
+				if compatible(r, e) {
+					forbiddenHit = true
+				}
+			}
 		}
+		writes = append(writes, fmt.Sprintf("step %d %s (%s)", e.step, q(res.Steps[e.step].Msg), []string{"must not notify", "may notify", "must notify"}[e.level]))
 	}
-	if pos < len(stream) {
-		add("unexpected-notification", "subscription %s (%s) got %s; %d notification(s) match no write", s.opID, q(res.Steps[s.step].Msg), typesOf(stream), len(stream)-pos)
+	disc := "wrong-notification"
+	switch {
+	case n < must:
+		disc = "missing-notification"
+	case n > may && forbiddenHit:
+		disc = "notification-for-non-matching-change"
+	case n > may:
+		disc = "unexpected-notification"
 	}
+	add(disc, "subscription %q (%s) produced [%s] for the writes: %s", s.opID, q(res.Steps[s.step].Msg), typesOf(stream), strings.Join(writes, "; "))
+}
+
+// malformedClass names which operation ID the reply to a malformed message carries.
+func malformedClass(rq Req, r Reply) string {
+	switch {
+	case rq.HasOpID && r.OpID == rq.OpID:
+		return "/own-opid"
+	case r.OpID == "":
+		return "/empty-opid"
+	}
+	return "/other-opid"
 }
